@@ -77,14 +77,25 @@ def ex_kw(rng, timeouts=TIMEOUTS, max_w=4, init_p=0.0):
     return kw
 
 
-def g_mix(rng, p_break=0.35, p_reusable=0.5, max_tasks=30):
+def g_mix(rng, p_break=0.35, p_reusable=0.5, max_tasks=30, force_context=None):
     """C01: anything goes. 1-2 executors, 1-3 threads, all task kinds, cancel /
     resize / shutdown(wait=*) / del / get_reusable, every way of ending."""
     kind = "reusable" if rng.random() < p_reusable else "plain"
     kw = ex_kw(rng)
     if kind == "reusable" and kw["timeout"] is None:
         kw["timeout"] = rng.choice([10, 0.2, 0.05])
+    if force_context is not None:
+        # stratification: every start method the executor accepts appears in every run, with idle time-outs
+        kind = "plain"
+        kw["context"] = force_context
+        kw["timeout"] = rng.choice([0.05, 0.2])
+        p_break = 0.15
+    elif kind == "plain" and rng.random() < 0.3:
+        # other start methods the executor accepts (loky's own two, and the stdlib ones)
+        kw["context"] = rng.choice(["loky_init_main", "spawn", "fork", "forkserver"])
     nthreads = rng.choice([1, 1, 2, 3])
+    if kw.get("context") == "fork":
+        nthreads = 1  # forking while other user threads run is outside what any library can promise
     will_break = rng.random() < p_break
     threads = []
     setup = [{"op": "new", "ex": "e", "kind": kind, "kw": kw}]
@@ -102,7 +113,7 @@ def g_mix(rng, p_break=0.35, p_reusable=0.5, max_tasks=30):
             elif r < 0.76:
                 ops.append({"op": "cancel", "fut": "__recent__"})
             elif r < 0.84:
-                ops.append({"op": "sleep", "d": rng.choice([0.001, 0.01, 0.06, 0.25])})
+                ops.append({"op": "sleep", "d": rng.choice([0.001, 0.01, 0.06, 0.25]) if force_context is None else rng.choice([0.06, 0.25, 0.7])})
             elif r < 0.90 and kind == "reusable":
                 kw2 = dict(kw, max_workers=rng.randint(1, 4))
                 if rng.random() < 0.2:
